@@ -486,7 +486,7 @@ func isBlob(s string) bool {
 	return false
 }
 
-var reAutoinc = regexp.MustCompile("(?i)(?:[(,]\\s*)[\"`\\[]?(\\w+)[\"`\\]]?\\s+INTEGER\\s+[^,]*PRIMARY\\s+KEY\\s+[^,]*AUTOINCREMENT")
+var reAutoinc = regexp.MustCompile("(?i)(?:[(,]\\s*)[\"`\\[]?(\\w+)[\"`\\]]?\\s+INTEGER\\s+[^,]*PRIMARY\\s+KEY\\s+[^,]*\\bAUTOINCREMENT\\b")
 
 // autoinc checks if the table contains a "PRIMARY KEY AUTOINCREMENT" on its
 // CREATE statement, according to https://www.sqlite.org/syntax/column-constraint.html.
@@ -550,7 +550,7 @@ func setGenExpr(t *schema.Table, c *schema.Column, f int64) error {
 var (
 	reFKC   = regexp.MustCompile("(?i)(?:[(,]\\s*)[\"`\\[]*(\\w+)[\"`\\]]*[^,]*\\s+CONSTRAINT\\s+[\"`\\[]*(\\w+)[\"`\\]]*\\s+REFERENCES\\s+[\"`\\[]*(\\w+)[\"`\\]]*\\s*\\(([,\"`\\[\\] \\w]+)\\)")
 	reFKT   = regexp.MustCompile("(?i)CONSTRAINT\\s+[\"`\\[]*(\\w+)[\"`\\]]*\\s+FOREIGN\\s+KEY\\s*\\(([,\"`\\[\\] \\w]+)\\)\\s+REFERENCES\\s+[\"`\\[]*(\\w+)[\"`\\]]*\\s*\\(([,\"`\\[\\] \\w]+)\\)")
-	reCheck = regexp.MustCompile("(?i)(?:CONSTRAINT\\s+[\"`\\[]?(\\w+)[\"`\\]]?\\s+)?CHECK\\s*\\(")
+	reCheck = regexp.MustCompile("(?i)(?:CONSTRAINT\\s+[\"`\\[]?(\\w+)[\"`\\]]?\\s+)?\\bCHECK\\s*\\(")
 )
 
 // fillConstName fills foreign-key constrain names from CREATE TABLE statement.
